@@ -677,19 +677,56 @@ def _loop_paths_increment(body: List[ast.stmt], counter: str) -> List[int]:
     return sorted({c for c, _ in walk(body, 0)})
 
 
+def _args_loop(fn, ap: str):
+    """(loop, iterable text in terms of `<ap>.list()`, filtered?) for the loop of fn that walks the argument list -
+    directly, through enumerate, or through a local bound to the list / to a comprehension over it."""
+    for l in fn.body:
+        if not isinstance(l, ast.For):
+            continue
+        it = l.iter
+        wrap = None
+        if isinstance(it, ast.Call) and unparse(it.func) == "enumerate" and it.args:
+            wrap, it0 = it, it.args[0]
+        else:
+            it0 = it
+        filtered = False
+        src = it0
+        if isinstance(it0, ast.Name):
+            vs = [st.value for st in walk_no_nested(fn) if isinstance(st, ast.Assign) and len(st.targets) == 1
+                  and isinstance(st.targets[0], ast.Name) and st.targets[0].id == it0.id]
+            if len(vs) == 1:
+                src = vs[0]
+        if isinstance(src, (ast.ListComp, ast.GeneratorExp)) and len(src.generators) == 1:
+            g = src.generators[0]
+            filtered = bool(g.ifs) or not (isinstance(src.elt, ast.Name) and isinstance(g.target, ast.Name) and src.elt.id == g.target.id)
+            src = g.iter
+        if isinstance(src, ast.Call) and unparse(src.func) in ("list", "tuple") and len(src.args) == 1:
+            src = src.args[0]
+        if unparse(src).replace(" ", "") != f"{ap}.list()":
+            continue
+        txt = f"{ap}.list()"
+        if wrap is not None:
+            rest = [unparse(a).replace(" ", "") for a in wrap.args[1:]] + [f"{k.arg}={unparse(k.value)}" for k in wrap.keywords]
+            txt = "enumerate(" + ",".join([txt] + [r.replace("start=", "") for r in rest]) + ")"
+        return l, txt, filtered
+    return None, "", False
+
+
 def rule_index_alignment(ctx, rep: Report, rid="M1"):
     ci, prog = mw(ctx)
     n = 0
     for name, start_want in (("_wrap_variable_arguments", 1), ("_wrap_method_check_statement", 1), ("_wrapper_unwrap_arguments", None)):
         fn = prog.method("MatlabWrapper", name)
         ap = func_params(fn)[1]
-        loops = [l for l in fn.body if isinstance(l, ast.For)]
-        main = next((l for l in loops if unparse(l.iter).replace(" ", "") in (f"{ap}.list()", f"enumerate({ap}.list(),1)", f"enumerate({ap}.list())")), None)
+        main, it, filtered = _args_loop(fn, ap)
         if main is None:
             raise AnalysisError(f"{name}: loop over the argument list not found")
         n += 1
-        it = unparse(main.iter).replace(" ", "")
         loc = f"{ci.mod.rel}:{main.lineno}"
+        rep.add(rid, f"{name}:positions are counted over the declared argument list itself", not filtered,
+                "the loop that numbers the arguments runs over a filtered / transformed copy of the list: an index taken from it is the "
+                "position among the *kept* arguments, not the declared position that the C++ side (in[i]) and MATLAB (varargin{i}) use",
+                loc, nontrivial=filtered)
         fo = Folder(prog, ci.mod, fn, ci)
         idx_slots = set()
         for c in ast.walk(main):
@@ -772,7 +809,9 @@ def _guard_builder_form(ctx, name: str) -> Tuple[List[str], List[Tuple[str, str]
     ci, prog = mw(ctx)
     fn = prog.method("MatlabWrapper", name)
     ap = func_params(fn)[1]
-    main = next(l for l in fn.body if isinstance(l, ast.For) and f"{ap}.list()" in unparse(l.iter))
+    main = _args_loop(fn, ap)[0]
+    if main is None:
+        raise AnalysisError(f"{name}: loop over the argument list not found")
     fo = Folder(prog, ci.mod, fn, ci)
     avar = main.target.elts[1].id if isinstance(main.target, ast.Tuple) else main.target.id
     # names
@@ -1479,3 +1518,49 @@ def rule_base_handle_pairing(ctx, rep: Report, rid="H4"):
             f"tests found: {flat}: where they disagree for some class (a parent on the ignore list, say) a SharedBase handle is "
             f"allocated that no MATLAB object receives, or the .m constructor waits for an output that is not produced",
             f"{ci.mod.rel}:{gc.lineno}")
+
+
+def rule_overload_data_from_overload(ctx, rep: Report, rid="M9"):
+    """Inside the loops that emit one MATLAB branch per overload (and allocate that overload's gateway id), everything that
+    depends on the signature - output list, return description, argument list, type tests - is computed from the overload
+    whose id is allocated in the same iteration.  Taking any of it from the first overload of the group (hoisted out of the
+    loop) gives later overloads the wrong number of outputs or the wrong tests while the C++ routine behind their id still
+    follows their own signature."""
+    ci, prog = mw(ctx)
+    SIG_HELPERS = {"_format_varargout": 0, "_format_return_type": 0, "_wrap_args": 0, "_wrap_method_check_statement": 0,
+                   "_wrap_variable_arguments": 0, "_wrap_list_variable_arguments": 0}
+    n = 0
+    for name in ("wrap_class_methods", "wrap_static_methods", "wrap_global_function"):
+        fn = prog.method("MatlabWrapper", name)
+        # loops whose variable is the payload of an id allocation made inside them
+        loops = []
+        for l in ast.walk(fn):
+            if not (isinstance(l, ast.For) and isinstance(l.target, ast.Name)):
+                continue
+            v = l.target.id
+            allocs = [c for c in ast.walk(l) if isinstance(c, ast.Call) and unparse(c.func) == "self._update_wrapper_id" and c.args
+                      and isinstance(c.args[0], ast.Tuple) and len(c.args[0].elts) == 4 and isinstance(c.args[0].elts[3], ast.Name)
+                      and c.args[0].elts[3].id == v]
+            if allocs:
+                loops.append((l, v))
+        for l, v in loops:
+            outer_loop = enclosing(l, ast.For)
+            scope = outer_loop if outer_loop is not None else fn
+            for c in ast.walk(scope):
+                if isinstance(c, ast.Call) and isinstance(c.func, ast.Attribute) and unparse(c.func.value) == "self" and c.func.attr in SIG_HELPERS and c.args:
+                    a0 = c.args[SIG_HELPERS[c.func.attr]]
+                    roots = {x.id for x in ast.walk(a0) if isinstance(x, ast.Name)}
+                    if isinstance(a0, ast.Name):
+                        # a local computed from ...: follow one step
+                        vs = [st.value for st in ast.walk(scope) if isinstance(st, ast.Assign) and len(st.targets) == 1
+                              and isinstance(st.targets[0], ast.Name) and st.targets[0].id == a0.id]
+                        roots = {x.id for v_ in vs for x in ast.walk(v_) if isinstance(x, ast.Name)} or roots
+                    n += 1
+                    inside = any(x is c for x in ast.walk(l))
+                    ok = roots == {v} and inside
+                    rep.add(rid, f"{name}:{c.func.attr}({unparse(a0)[:30].replace(v, '<overload>')}):taken from the overload whose id is allocated", ok,
+                            f"`{unparse(c)[:70]}` is computed from {sorted(roots)} {'inside' if inside else 'outside'} the loop over the overloads "
+                            f"(loop variable `{v}`): an overload with another return shape / argument list gets the first one's text",
+                            f"{ci.mod.rel}:{c.lineno}")
+    if n < 6:
+        raise AnalysisError(f"{rep.prop}/{rid}: only {n} signature-dependent helper calls found in the per-overload loops (6 expected)")
